@@ -270,7 +270,7 @@ type c08Stats struct {
 	Calls, Admitted, Payloads, Goroutines, Rounds int
 }
 
-func clip(s string, n int) string {
+func c08clip(s string, n int) string {
 	if len(s) > n {
 		return s[:n] + "..."
 	}
@@ -318,9 +318,9 @@ func c08RunRound(r *Run, rd *c08Round, st *c08Stats) (obs [][2]int, admitted []b
 					dests[cd.ID] = append(dests[cd.ID], wi)
 					// the twin itself is checked: one complete record of this call
 					if id, why := c08Owner(p); id != cd.ID {
-						fail("C08/torn-record", fmt.Sprintf("sequential call %d: the payload is not the record of exactly that call (%s): %q", cd.ID, why, clip(string(p), 300)), &cd)
+						fail("C08/torn-record", fmt.Sprintf("sequential call %d: the payload is not the record of exactly that call (%s): %q", cd.ID, why, c08clip(string(p), 300)), &cd)
 					} else if why := c08Shape(rd.Loggers[cd.L].Mode, p); why != "" {
-						fail("C08/torn-record", fmt.Sprintf("sequential call %d (%s): the payload %s: %q", cd.ID, rd.Loggers[cd.L].Mode, why, clip(string(p), 300)), &cd)
+						fail("C08/torn-record", fmt.Sprintf("sequential call %d (%s): the payload %s: %q", cd.ID, rd.Loggers[cd.L].Mode, why, c08clip(string(p), 300)), &cd)
 					}
 				}
 				lens[wi] = len(w.recs)
@@ -366,7 +366,7 @@ func c08RunRound(r *Run, rd *c08Round, st *c08Stats) (obs [][2]int, admitted []b
 	close(start)
 	wg.Wait()
 	for _, p := range panics {
-		fail("C08/panic-under-concurrency", "a log call panicked while other goroutines were logging: "+clip(p, 300), nil)
+		fail("C08/panic-under-concurrency", "a log call panicked while other goroutines were logging: "+c08clip(p, 300), nil)
 	}
 
 	// --- oracle ---
@@ -380,13 +380,13 @@ func c08RunRound(r *Run, rd *c08Round, st *c08Stats) (obs [][2]int, admitted []b
 			id, why := c08Owner(p)
 			if id < 0 || id >= total {
 				obs = append(obs, [2]int{wi, -1})
-				fail("C08/torn-record", fmt.Sprintf("destination %d observed a payload that is not the record of exactly one call (%s): %q", wi, why, clip(string(p), 400)), nil)
+				fail("C08/torn-record", fmt.Sprintf("destination %d observed a payload that is not the record of exactly one call (%s): %q", wi, why, c08clip(string(p), 400)), nil)
 				continue
 			}
 			cd := callOf[id]
 			obs = append(obs, [2]int{wi, id})
 			if why := c08Shape(rd.Loggers[cd.L].Mode, p); why != "" {
-				fail("C08/torn-record", fmt.Sprintf("destination %d: the payload of call %d (%s) %s: %q", wi, id, rd.Loggers[cd.L].Mode, why, clip(string(p), 400)), &cd)
+				fail("C08/torn-record", fmt.Sprintf("destination %d: the payload of call %d (%s) %s: %q", wi, id, rd.Loggers[cd.L].Mode, why, c08clip(string(p), 400)), &cd)
 				continue
 			}
 			m := c08Mask(p)
@@ -397,7 +397,7 @@ func c08RunRound(r *Run, rd *c08Round, st *c08Stats) (obs [][2]int, admitted []b
 				}
 			}
 			if !ok && len(expected[id][wi]) > 0 {
-				fail("C08/torn-record", fmt.Sprintf("destination %d: the payload of call %d differs from the record the same call produces sequentially:\n concurrent %q\n sequential %q", wi, id, clip(m, 500), clip(expected[id][wi][0], 500)), &cd)
+				fail("C08/torn-record", fmt.Sprintf("destination %d: the payload of call %d differs from the record the same call produces sequentially:\n concurrent %q\n sequential %q", wi, id, c08clip(m, 500), c08clip(expected[id][wi][0], 500)), &cd)
 				continue
 			}
 			got[id][wi]++
